@@ -1,20 +1,107 @@
 import MsPack.Driver.Core
+import MsPack.Kwaj.Extract
 /-
-Driver ops of the kwaj format — STUB: claims nothing, so every kwaj op prints `unsupported`.
+Driver ops of the kwaj format: new/open/dump/extract/decompress/close/destroy.
+Result lines as printed by the C harness (harness/README.md): `bad-handle` = number never issued
+or not a kwaj handle, `dead-handle` = closed handle / destroyed instance.
 -/
 namespace MsPack.Driver.Kwaj
 open MsPack MsPack.Driver
 
 structure State where
-  insts : List Nat := []      -- instance numbers that are kwaj decompressors
+  insts   : List (Nat × Option Err) := []             -- `self->error`; none = destroyed
+  handles : List (Nat × Option Kwaj.Handle) := []     -- none = closed
 
-/-- `true` = op handled (result lines emitted) -/
-def handle (toks : List String) : HM State Bool := do
+abbrev M := HM State
+
+def fuelFor (n : Nat) : Nat := 16 * n + 100000
+
+def setErr (i : Nat) (e : Err) : M Unit :=
+  modifySt fun s => { s with insts := (i, some e) :: s.insts.filter (·.1 ≠ i) }
+
+def setHandle (k : Nat) (h : Option Kwaj.Handle) : M Unit :=
+  modifySt fun s => { s with handles := (k, h) :: s.handles.filter (·.1 ≠ k) }
+
+def dumpLine (k : Nat) (h : Kwaj.Handle) : String :=
+  let d := h.hdr
+  s!"kwaj h{k} comp={d.compType} dataoff={d.dataOffset} flags=0x{natHex d.headers} len={d.length} name={optHex d.filename} extra={optHex d.extra}"
+
+/-- handle lookup with the harness's error words -/
+def getHandle (op tok : String) : M (Option (Nat × Kwaj.Handle)) := do
+  let hs := (← getSt).handles
+  match (parseHandle tok).bind fun k => (hs.lookup k).map (k, ·) with
+  | none => emit s!"{op} bad-handle"; return none
+  | some (_, none) => emit s!"{op} dead-handle"; return none
+  | some (k, some h) => return some (k, h)
+
+def handle (toks : List String) : M Bool := do
   match toks with
   | ["new", "kwaj"] | ["new", "kwaj", "default"] =>
     let i ← freshInst
-    modifySt fun s => { s with insts := i :: s.insts }
+    modifySt fun s => { s with insts := (i, some .ok) :: s.insts }
     emit s!"new kwaj i{i}"
+    return true
+  | op :: itok :: rest =>
+    let some i := parseInst itok | return false
+    let some inst := (← getSt).insts.lookup i | return false
+    let arity : Option Nat := match op with
+      | "open" | "close" | "dump" => some 1
+      | "extract" => some 3
+      | "decompress" => some 2
+      | "destroy" => some 0
+      | _ => none
+    match arity with
+    | none => emit s!"{op} unsupported"; return true
+    | some n =>
+    if rest.length ≠ n then emit s!"{op} bad-args"; return true
+    let some err := inst | emit s!"{op} dead-handle"; return true
+    let fill := (← getShared).fill
+    match op, rest with
+    | "open", [name] =>
+      match Kwaj.open_ fill err (← lookupFile name) with
+      | .error f => emit s!"open FAULT {reprStr f}"
+      | .ok (h, e) =>
+        setErr i e
+        match h with
+        | some h =>
+          let k ← freshHandle
+          setHandle k (some h)
+          emit s!"open h{k} st=0 err={e.code}"
+          emit (dumpLine k h)
+        | none => emit s!"open NULL st={e.code} err={e.code}"
+    | "dump", [hk] =>
+      let some (k, h) ← getHandle op hk | return true
+      emit s!"dump h{k}"
+      emit (dumpLine k h)
+    | "close", [hk] =>
+      let some (k, _) ← getHandle op hk | return true
+      setHandle k none
+      setErr i .ok
+      emit "close ok"
+    | "extract", [hk, idx, outName] =>
+      let some (k, h) ← getHandle op hk | return true
+      if idx ≠ "-" then emit "extract bad-args"; return true
+      match Kwaj.extract fill (fuelFor h.rd.file.length) h with
+      | .error f => emit s!"extract FAULT {reprStr f}"
+      | .ok o =>
+        setErr i o.err
+        setHandle k (some o.h)
+        putFile outName o.written
+        emit s!"extract st={o.err.code} err={o.err.code} written={o.written.length} declared={h.hdr.length} out={← fileDigest outName}"
+    | "decompress", [inName, outName] =>
+      let file ← lookupFile inName
+      match Kwaj.decompress fill (fuelFor ((file.getD []).length)) err file with
+      | .error f => emit s!"decompress FAULT {reprStr f}"
+      | .ok o =>
+        setErr i o.err
+        match o.written with
+        | some w => putFile outName w
+        | none => pure ()
+        emit s!"decompress st={o.err.code} err={o.err.code} written={(o.written.getD []).length} out={← fileDigest outName}"
+    | "destroy", [] =>
+      modifySt fun s => { s with insts := (i, none) :: s.insts.filter (·.1 ≠ i) }
+      emit "destroy ok"
+    | _, _ => emit s!"{op} unsupported"
     return true
   | _ => return false
 
